@@ -102,7 +102,10 @@ class _ParseState:
                 return existing
         count = len(self.seen[name])
         if count:
-            object_type.__name__ = name + f"_{count}"
+            while self.seen.get(f"{name}_{count}"):
+                count += 1  # That name is taken by an explicit title.
+            object_type.__name__ = f"{name}_{count}"
+            self.seen[object_type.__name__].append(object_type)
         self.seen[name].append(object_type)
         return object_type
 
@@ -560,7 +563,13 @@ def _title_format(name: str) -> str:
     Always produces a valid class name which does not shadow a name used
     by generated modules.
     """
+    # Keep the suffix which de-duplication appends to repeated names, so that
+    # serialised schemas parse back to the same class names.
+    name, suffix = re.fullmatch(r"(.*?)((?:_\d+)*)", name, re.DOTALL).groups()
     title = _title_words(name)
+    if title and suffix:
+        return title + suffix
+    name += suffix
     if not title:
         # No usable ASCII letters: spell out the characters instead.
         title = _title_words(_parse_attribute_name(name))
